@@ -2,5 +2,5 @@ From Coq Require Import Extraction ExtrOcamlBasic ZArith List.
 From MV Require Import Geo.CtorDefs Geo.WindingDefs.
 Extraction Language OCaml.
 Extraction "../build/ml/c17_model.ml" ext_sides ext_nverts extrude_tris rev_polys revolve_tris rev_nslices
-  circ_segments sphere_n cylinder_n manifold_closedb tri_in_rangeb
+  circ_segments sphere_n cylinder_n manifold_closedb chain_closedb tri_in_rangeb
   winding_fast volume6 mat_rot apply transform_tris pvolume6 det34.
